@@ -12,7 +12,7 @@ VARIABLES d
 
 TitleKinds == {"plain", "space", "quote", "dquote", "brace", "format", "digit", "unicode", "long", "dquote3", "dquote_last", "squote3"}
 ConstKinds == {"int", "float", "bigint", "bool", "text", "text_quote", "text_backslash", "text_newline", "text_brace",
-               "datetime", "date", "time", "timedelta", "errstr", "empty", "numtext", "eqtext_const", "datatable"}
+               "datetime", "date", "time", "timedelta", "errstr", "empty", "numtext", "eqtext_const", "datatable", "overflow", "overflow_neg"}
 FormulaKinds == {"none", "valid_arith", "valid_fn", "valid_nested3", "valid_crosssheet", "valid_wholecol", "array_formula",
                  "unknown_fn", "unknown_sheet", "far_ref", "lowercase_fn", "name", "error_literal", "unbalanced", "trailing_op",
                  "lit_quote", "lit_backslash", "lit_brace", "lit_newline", "adjacent_pct", "match2", "xmatch2", "vlookup3",
@@ -37,6 +37,8 @@ MustBeOk == {"none", "valid_arith", "valid_fn", "valid_nested3", "valid_crossshe
 \* a cell that holds an object instead of a value (a what-if data table) has no translation: rejecting the workbook is admissible
 Expected(f, t, c) == IF f \in Rejecting THEN {"lib"}
                   ELSE IF c = "datatable" THEN {"ok", "lib"}
+                  \* a stored number beyond the range of a double (<v>1e999</v>): read as an infinity; a member that evaluates to it or a rejection
+                  ELSE IF c \in {"overflow", "overflow_neg"} THEN {"ok", "lib"}
                   ELSE IF f \in {"valid_crosssheet"} /\ t \in {"quote", "squote3"} THEN {"ok", "lib"}
                   ELSE IF f \in MustBeOk THEN {"ok"} ELSE {"ok", "lib"}
 
